@@ -1,5 +1,5 @@
 """C13 — row/column locations are correct and independent of the locator used (DESIGN.md 6/C13)."""
-import re
+import re, zlib
 from ..engine import Failure
 from ..known import open_ids
 from ..choice import ChoiceStream
@@ -35,6 +35,40 @@ def compare_located(tree, located, lt, path, bad, counter):
         if k in ('_', 'range'):
             continue
         compare_located(v, located.get(k) if isinstance(located, dict) else None, lt, path + '/' + str(tree.get('_', '')) + '.' + k, bad, counter)
+
+
+def has_param_default(x):
+    if isinstance(x, dict):
+        if x.get('_') == 'arg_with_default' and x.get('default') is not None:
+            return True
+        return any(has_param_default(v) for v in x.values())
+    if isinstance(x, list):
+        return any(has_param_default(v) for v in x)
+    return False
+
+
+def has_empty_lambda(x):
+    if isinstance(x, dict):
+        if x.get('_') == 'Lambda':
+            a = x.get('args') or {}
+            if not (a.get('posonlyargs') or a.get('args') or a.get('vararg') or a.get('kwonlyargs') or a.get('kwarg')):
+                return True
+        return any(has_empty_lambda(v) for v in x.values())
+    if isinstance(x, list):
+        return any(has_empty_lambda(v) for v in x)
+    return False
+
+
+def has_shared_withitems(x):
+    if isinstance(x, dict):
+        if x.get('_') in ('With', 'AsyncWith'):
+            rs = [tuple(i.get('range') or ()) for i in x.get('items', [])]
+            if len(rs) != len(set(rs)):
+                return True
+        return any(has_shared_withitems(v) for v in x.values())
+    if isinstance(x, list):
+        return any(has_shared_withitems(v) for v in x)
+    return False
 
 
 class C13(ProgramProperty):
@@ -85,13 +119,24 @@ class C13(ProgramProperty):
         data = text.encode('utf-8')
         lt = ref.LineTable(data)
         fails = []
-        cfgs = ('B',) if ctx.tier == 'quick' else ('B', 'A')
+        # quick: the all-nodes-with-ranges build on a quarter of the cases (and on every explicit case / witness)
+        both = ctx.tier != 'quick' or case.get('cfgA') or len(text) < 60 or zlib.crc32(data) % 4 == 0
+        cfgs = ('B', 'A') if both else ('B',)
         for cfg in cfgs:
             sut = ctx.sut(cfg)
             r = sut.call('locate', src=text, mode=case['mode'])
+            extra = {}
+            if cfg == 'A':
+                # C13-F4's region: a parameter with a default in the build where arg_with_default carries a range
+                tr = r.get('tree')
+                if tr is None and 'err' not in r:
+                    tr = sut.call('parse', src=text, mode=case['mode']).get('ok')
+                extra['param_default'] = has_param_default(tr)
+                extra['empty_lambda'] = has_empty_lambda(tr)
+                extra['shared_withitem_range'] = has_shared_withitems(tr)
 
             def bad(sig, **d):
-                fails.append(Failure(sig + ':' + cfg, text=text, mode=case['mode'], **d))
+                fails.append(Failure(sig + ':' + cfg, text=text, mode=case['mode'], **dict(extra, **d)))
             if 'tree' not in r:
                 if 'err' not in r:
                     bad('panic_or_crash', reply=str(r)[:300])
@@ -171,6 +216,15 @@ class C13(ProgramProperty):
         sig, d, t = f.signature, f.detail, case['text']
         if 'C13-F1' in ids and sig.startswith(('linear_locator_panics', 'linear_differs_from_random')) and self.class_kw_before_star(t):
             return 'C13-F1'
+        if 'C13-F4' in ids and sig.endswith(':A') and d.get('param_default') and (sig.startswith(('linear_locator_panics', 'linear_differs_from_random')) or
+                                                                                 sig.startswith('panic_or_crash') and ' -> ' in str(d.get('reply'))):
+            return 'C13-F4'
+        if 'C13-F5' in ids and sig.endswith(':A') and d.get('empty_lambda') and (sig.startswith(('linear_locator_panics', 'linear_differs_from_random')) or
+                                                                                 sig.startswith('panic_or_crash') and ' -> ' in str(d.get('reply'))):
+            return 'C13-F5'
+        if 'C13-F6' in ids and sig.endswith(':A') and d.get('shared_withitem_range') and (sig.startswith(('linear_locator_panics', 'linear_differs_from_random')) or
+                                                                                          sig.startswith('panic_or_crash') and ' -> ' in str(d.get('reply'))):
+            return 'C13-F6'
         if 'C13-F2' in ids and sig.startswith('linear_differs_from_random') and 'FormattedValue' in d.get('path', '') and 'JoinedStr' in d.get('path', ''):
             return 'C13-F2'
         if 'C13-F3' in ids and '\r\n' in t and re.search(r'''[fF][rR]?['"]|[rR][fF]['"]''', t) and \
